@@ -86,3 +86,19 @@ pub fn on_plan(kinds: &[String]) {
         cb(kinds);
     }
 }
+
+thread_local! {
+    static LOCKS_TAKEN: std::cell::Cell<u64> = const { std::cell::Cell::new(0) };
+}
+
+/// Called by the counting lock wrappers each time the calling thread has ACQUIRED an
+/// instrumented mutex guard (after the acquisition succeeded).
+pub fn note_lock_acquired(_site: &'static str) {
+    LOCKS_TAKEN.with(|c| c.set(c.get() + 1));
+}
+
+/// Number of instrumented guard acquisitions made by the calling thread so far.
+#[must_use]
+pub fn locks_acquired_by_this_thread() -> u64 {
+    LOCKS_TAKEN.with(std::cell::Cell::get)
+}
